@@ -403,6 +403,10 @@ impl Family for C07 {
         out
     }
 
+    fn long_running(s: &S07) -> bool {
+        s.huge.as_ref().map(|g| g.ops.iter().any(|o| matches!(o, crate::giant::HsOp::Skip(n) if *n >= 1 << 28))).unwrap_or(false)
+    }
+
     fn rule() -> &'static str {
         "one case = (endianness, reader {buffered u8..u64, unbuffered}, backend {zero-extended, strict, vector/slice writer read back, WordAdapter over SimDisk, WordAdapter over std BufReader; device backends with benign faults at 0-30% and, in a tenth of the runs, one seek error or hard error}, valid stream of 1-12 items, history of 2-40 ops among read-the-item-here (codes with table options, except on u8 readers), fixed-width reads, skips, peeks, unary, io::Read, and seeks to item starts / word boundaries -1,0,+1 / current position / 0 / end / arbitrary p<=len). bit_pos() is checked after every op. distinct_nontrivial = distinct (endianness, reader, op kind, measured buffer fill before the op, width argument, previous op kind) signatures Scale scenarios (one run in 40): a stream of up to 2^62 bits (real head, zero run, real tail) over a sparse word source or the real WordAdapter (directly / through std BufReader) over a sparse byte source; seeks to positions around 2^32, 2^33, 2^35, 2^40, 2^48, 2^56, 2^62 bits, reads / read_unary / skips there, bit_pos after every op; one run in 100 000 skips over 2^32 bits in one call."
     }
